@@ -1,7 +1,7 @@
 (* C08 — losing the connection surfaces promptly as a scrapli error.
    This file contains only the property theorems (closed by [exact] from proofs/ConnLoss_Proofs.v, instantiated with
    the configuration generated from the current source tree) and Print Assumptions. *)
-From Verif Require Import Bytes ConnLoss ConnLoss_Proofs ConnLossNeg ConnLossNeg_Proofs.
+From Verif Require Import Bytes ConnLoss ConnLoss_Proofs ConnLossNeg ConnLossNeg_Proofs ConnLossTime ConnLossTime_Proofs.
 From Gen Require Import Gen_ConnLoss.
 
 (* The generated configuration (exception tables around every low-level call of the five transports, guards,
@@ -9,9 +9,15 @@ From Gen Require Import Gen_ConnLoss.
    the model's well-formedness check: every exception a library is documented to raise from a low-level read,
    write, close, liveness probe or step of open() ends as a ScrapliException subclass (or is dealt with), an empty
    read is raised, isalive() honours EOF, the not-opened guards are there, the asyncio login loop sleeps on every
-   path, and no other channel read/write loop catches anything. *)
+   path, no other channel read/write loop catches anything -- the read-for-a-duration loop
+   (_read_until_prompt_or_time, sync and asyncio) has a table of its own around self.read(): it swallows nothing but
+   a ScrapliTimeout, every other scrapli exception (ScrapliConnectionError, ScrapliConnectionNotOpened, ...) leaves it
+   raised (rtime_ok) --, and the channel lock context manager gives the lock back however the operation under it is
+   left (an exception included). *)
 Theorem C08_generated_config_ok :
-  cfg_ok gen_cfg = true /\ cfg_ok gen_cfg_strict = true /\ gen_chan_loops_try_free = true.
+  cfg_ok gen_cfg = true /\ cfg_ok gen_cfg_strict = true /\ gen_chan_loops_try_free = true /\
+  rtime_ok gen_cfg gen_rtime_sync = true /\ rtime_ok gen_cfg gen_rtime_async = true /\
+  gen_chan_lock_released = true.
 Proof. repeat split; vm_compute; reflexivity. Qed.
 Print Assumptions C08_generated_config_ok.
 
@@ -126,6 +132,63 @@ Theorem C08_example_negotiation :
   /\ neg_ok gen_cfg (mkNcfg false []) Telnet = false.
 Proof. split; [vm_compute; reflexivity | exact (neg_ok_bare_fails gen_cfg (proj1 C08_generated_config_ok))]. Qed.
 Print Assumptions C08_example_negotiation.
+
+(* the read-for-a-duration loop (channel._read_until_prompt_or_time under send_input_and_read / Driver.send_and_read),
+   with the table generated from the source, for EVERY transport, matcher (expected outputs / prompt), buffer, amount
+   of read duration left and history of low-level events: it ends normally, in a blocked read (the operation's
+   timeout) or in a ScrapliException subclass; it never spins or starves; the state it leaves is one the theorems
+   above apply to; on a detached transport it raises at once. *)
+Theorem C08_read_for_duration :
+  forall (a : bool) tr m fuel buf st e rs,
+    inv tr st -> env_ok tr e = true -> rs_ok tr rs = true ->
+    rt_post gen_cfg tr st (read_time gen_cfg tr (gen_rtime a) m fuel buf st e rs).
+Proof.
+  intros a; destruct a;
+  [ exact (read_time_spec gen_cfg (proj1 C08_generated_config_ok) gen_rtime_async
+             (proj1 (proj2 (proj2 (proj2 (proj2 C08_generated_config_ok))))))
+  | exact (read_time_spec gen_cfg (proj1 C08_generated_config_ok) gen_rtime_sync
+             (proj1 (proj2 (proj2 (proj2 C08_generated_config_ok))))) ].
+Qed.
+Print Assumptions C08_read_for_duration.
+
+(* ... and whichever round read() raises a connection-loss class in (ScrapliConnectionError, ...NotOpened, ...),
+   that round ends the loop in a ScrapliException: a loss is never reported as the end of the output *)
+Theorem C08_read_for_duration_raises :
+  forall (a : bool) tr m fuel buf st e rs x st1 e1 rs1,
+    t_read gen_cfg tr st e rs = (XExc x, st1, e1, rs1) -> In x loss_classes ->
+    exists y, read_time gen_cfg tr (gen_rtime a) m fuel buf st e rs = LStop (ORaised y) st1 e1 rs1
+              /\ scrapli gen_cfg y = true.
+Proof.
+  intros a; destruct a; intros tr m fuel buf st e rs x st1 e1 rs1;
+  [ exact (read_time_raises gen_cfg tr gen_rtime_async m fuel buf st e rs x st1 e1 rs1
+             (proj1 (proj2 (proj2 (proj2 (proj2 C08_generated_config_ok))))))
+  | exact (read_time_raises gen_cfg tr gen_rtime_sync m fuel buf st e rs x st1 e1 rs1
+             (proj1 (proj2 (proj2 (proj2 C08_generated_config_ok))))) ].
+Qed.
+Print Assumptions C08_read_for_duration_raises.
+
+(* non-vacuity on the generated configuration: send_and_read (input "sh", until "#"), the session dropped after the
+   echo and the first bytes of the answer, on each transport -- it raises ScrapliConnectionError (31), isalive() is
+   False, the next get_prompt raises; without a drop it ends normally on the prompt; and a table that also swallows
+   ScrapliConnectionError does not pass the check (and would make the dropped exchange end normally: (0, 0)) *)
+Theorem C08_example_read_for_duration :
+  (forall tr, In tr all_transports ->
+     sar_codes gen_cfg (gen_rtime (is_async tr)) tr 300 0 (m_input [115;104]) (m_prompt [35]) 50 (mkEnv [] [] [])
+       [RData [115;104]; RData [10;111;117]; REmpty]
+     = [((2, 31), (1, 0)); ((2, 31), (1, 0))]
+     /\
+     sar_codes gen_cfg (gen_rtime (is_async tr)) tr 300 0 (m_input [115;104]) (m_prompt [35]) 50 (mkEnv [] [] [])
+       [RData [115;104]; RData [10;111;117]; RData [10;35]; RData [10;35]]
+     = [((0, 0), (1, 1)); ((0, 0), (1, 1))])
+  /\ rtime_ok gen_cfg [[([STimeout], ASwallow); ([SConnectionError], ASwallow)]] = false
+  /\ hd ((9, 9), (9, 9)) (sar_codes gen_cfg [[([STimeout], ASwallow); ([SConnectionError], ASwallow)]] Telnet 300 0
+         (m_input [115;104]) (m_prompt [35]) 2 (mkEnv [] [] []) [RData [115;104]; RData [10;111;117]; REmpty])
+     = ((0, 0), (1, 0)).
+Proof.
+  split; [|split; vm_compute; reflexivity].
+  intros tr H; simpl in H; repeat destruct H as [H|H]; try subst tr; try contradiction; split; vm_compute; reflexivity.
+Qed.
+Print Assumptions C08_example_read_for_duration.
 
 (* the full statement — the same without "timeout_ops > 0" — is false: timeout_ops = 0 means no timeout, and a
    silent peer then hangs the operation (documented as outside the property) *)
